@@ -56,7 +56,12 @@ class Conclusion(SymbolicExpression[T], ABC):
         value_str = (
             self.value._type_.__name__
             if isinstance(self.value, Variable)
-            else str(self.value)
+            # only plain builtin values are shown as they are: formatting a user's object would call its __str__
+            else (
+                str(self.value)
+                if type(self.value) in (int, float, str, bool, type(None))
+                else type(self.value).__name__
+            )
         )
         return f"{self.__class__.__name__}({self.var._var_._name_}, {value_str})"
 
